@@ -214,3 +214,17 @@ Check non_gr_reasons_retain_nothing :
     let h' := h_step h (HDown rs) in
     h_rib h' = [] /\ h_rtimer h' = false /\ h_ltimers h' = [] /\ h_sess h' = None /\ h_gr h' = h_gr h.
 Print Assumptions non_gr_reasons_retain_nothing.
+
+(* the eligibility decision of gr_on_disconnect is the one the property text states: for every
+   reason class, and for every NOTIFICATION (code, subcode) sent or received it is eligible exactly
+   when the N bit is negotiated and it is a Cease other than Hard Reset (finding C10-8 repaired) *)
+Theorem eligibility_is_as_stated :
+  (forall r nb, gr_applies r nb = spec_eligible r nb)
+  /\ (forall (local : bool) (code sub : N) (nb : bool),
+        gr_applies (reason_of_notification local code sub) nb = nb && (code =? 6) && negb (sub =? 9)).
+Proof. exact C10_eligibility_is_as_stated. Qed.
+Check eligibility_is_as_stated :
+  (forall r nb, gr_applies r nb = spec_eligible r nb)
+  /\ (forall (local : bool) (code sub : N) (nb : bool),
+        gr_applies (reason_of_notification local code sub) nb = nb && (code =? 6) && negb (sub =? 9)).
+Print Assumptions eligibility_is_as_stated.
